@@ -51,6 +51,9 @@ func (v *VMap) Valid(src interface{}) error {
 	}
 
 	tv := RemoveValuePtr(reflect.ValueOf(src))
+	if !tv.IsValid() { // 指针为 nil
+		return errors.New("src \"" + reflect.TypeOf(src).String() + "\" is nil")
+	}
 	switch tv.Kind() {
 	case reflect.Array, reflect.Slice:
 		l := tv.Len()
@@ -64,13 +67,14 @@ func (v *VMap) Valid(src interface{}) error {
 
 // validate 验证执行体
 func (v *VMap) validate(prefix string, tv reflect.Value) *VMap {
-	if tv.Type().Key().Kind() != reflect.String {
-		v.errBuf.WriteString(GetJoinFieldErr("", prefix, "map key must string"))
+	// 注: 需要先判断是否为 map, 非 map 调用 Type().Key() 会 panic
+	if tv.Kind() != reflect.Map {
+		v.errBuf.WriteString(GetJoinFieldErr("", prefix, "val must map"))
 		return v
 	}
 
-	if tv.Kind() != reflect.Map {
-		v.errBuf.WriteString(GetJoinFieldErr("", prefix, "val must map"))
+	if tv.Type().Key().Kind() != reflect.String {
+		v.errBuf.WriteString(GetJoinFieldErr("", prefix, "map key must string"))
 		return v
 	}
 
